@@ -401,12 +401,10 @@ def symbolic_data_section(lay):
     return raw.tobytes()
 
 
-def build_file(path, lay, version, il=(0, 1), xl=(0, 1), z=(0, 4000), arrays=None, consts=None, dups=None,
-               data=None, tracecount=None, filehdr=None, source=0, detection=0, hashbytes=b'\0' * 20,
-               n_header_blocks=2, pad_footer=None):
-    """Write an SGZ file under the conventions of `version` (encoded word). il/xl = (origin, step);
-    z = (start_ms, interval_us). arrays: ordered {code: int32 array over grid traces}. data: bytes of the data
-    section (default: symbolic)."""
+def header_bytes(lay, version, il=(0, 1), xl=(0, 1), z=(0, 4000), arrays=None, consts=None, dups=None,
+                 tracecount=None, filehdr=None, source=0, detection=0, hashbytes=b'\0' * 20, n_header_blocks=2):
+    """the header blocks of an SGZ file under the conventions of `version` (encoded word). il/xl = (origin, step);
+    z = (start_ms, interval_us). arrays: ordered {code: ...} (only the codes matter here)."""
     arrays = arrays or {}
     hdr = bytearray(DISK * n_header_blocks)
     grid = lay.n[1] if lay.is2d else lay.n[0] * lay.n[1]
@@ -437,6 +435,20 @@ def build_file(path, lay, version, il=(0, 1), xl=(0, 1), z=(0, 4000), arrays=Non
     hdr[980:2048] = encode_hw_table(consts, list(arrays.keys()), dups)
     if filehdr is not None and n_header_blocks >= 2:
         hdr[DISK:DISK + 3600] = filehdr
+    return bytes(hdr)
+
+
+def build_file(path, lay, version, il=(0, 1), xl=(0, 1), z=(0, 4000), arrays=None, consts=None, dups=None,
+               data=None, tracecount=None, filehdr=None, source=0, detection=0, hashbytes=b'\0' * 20,
+               n_header_blocks=2, pad_footer=None):
+    """Write an SGZ file under the conventions of `version` (encoded word). il/xl = (origin, step);
+    z = (start_ms, interval_us). arrays: ordered {code: int32 array over grid traces}. data: bytes of the data
+    section (default: symbolic)."""
+    arrays = arrays or {}
+    grid = lay.n[1] if lay.is2d else lay.n[0] * lay.n[1]
+    hdr = header_bytes(lay, version, il=il, xl=xl, z=z, arrays=arrays, consts=consts, dups=dups, tracecount=tracecount,
+                       filehdr=filehdr, source=source, detection=detection, hashbytes=hashbytes,
+                       n_header_blocks=n_header_blocks)
     if pad_footer is None:
         pad_footer = version > V_0_2_1
     with open(path, 'wb') as f:
